@@ -13,11 +13,11 @@ def post(check, info):
     open(os.path.join(info['dir'], 'sites.h'), 'w').write('static const int vf_site_code[] = {%s};\n' % ', '.join(map(str, codes + [899])))
     info['site_codes'] = [{'code': c, 'function': s['function'][:60], 'access': s['access'], 'global': s['global']} for c, s in zip(codes, sites)]
 def units(tier):
-    u = Unit('sighandler', 'wrap.cc', 'harness.c', ll2c_args=['--icall-hook', '12HandleSigInt', '--yield', '13SignalHandler(C2|D2|10SetHandler|12HandleSigInt)|^w_(construct|destroy|set_handler)$'], san=False, extra_repo_cc=['src/format.cc'], externs=['signal', 'getenv', 'write', '_exit', '_ZN3fmt6formatB5cxx11ENS_15BasicCStringRefIcEENS_7ArgListE'])
-    u.post = post; u.cdefs = ['VF_OWN_YIELD']; u.stub_undefined = True; u.real_cxxflags = ['-DAMPL_MP_VERIF']
+    u = Unit('sighandler', 'wrap.cc', 'harness.c', ll2c_args=['--icall-hook', '12HandleSigInt', ], san=False, cxxflags=['-DAMPL_MP_VERIF'], extra_repo_cc=['src/format.cc'], externs=['vf_marker', 'signal', 'getenv', 'write', '_exit', '_ZN3fmt6formatB5cxx11ENS_15BasicCStringRefIcEENS_7ArgListE'])
+    u.post = post; u.cdefs = ['VF_OWN_YIELD']; u.stub_undefined = True; u.real_cxxflags = []
     return [u]
 def harnesses(tier):
-    A = ['signals are delivered only at instruction boundaries that precede a store to one of SignalHandler\'s static members, or between harness steps (every other instruction does not touch shared state)',
+    A = ['signals are delivered at the source-level markers MP_VERIF_SIGPOINT(n) (one before every store to SignalHandler\'s static members in the constructor, SetHandler and the destructor; the unit is compiled with -DAMPL_MP_VERIF) or between harness steps',
          'no nested delivery inside HandleSigInt (bound)', 'fmt::format (text of the break message) is a stub returning an 18-character heap string', 'write() returns -1 or the full size; getenv returns NULL; _exit ends the execution',
          'single thread + its signal handler: atomics are sequentially consistent']
     return [Harness('h_schedule', 'sighandler', unwind=40, timeout=400, mem_gb=16,
